@@ -104,6 +104,43 @@ def check_deep(case, acc):
     acc.tag("deep_chain_cases")
 
 
+def _evict_veto_cases(cls, n):
+    """Children assignments (children taken only from the node itself or from roots) during which _pre_detach_children
+    re-files the first child under another node, and a pre-hook of the ATTACH phase then vetoes."""
+    fam = mut.family_of(cls)
+    for state, route in mut.enum_states(n, 0, 1):
+        if route != "parent":
+            continue
+        for op in mut.calls_for(n, fam, invalid=False, maxlen=min(n, 3)):
+            if op[0] != "children" or not state[op[1]][1]:
+                continue
+            if any(state[x][0] not in (None, op[1]) for x in op[2]) or mut.spec(state, op, fam)[0] != "ok":
+                continue
+            base = {"cls": cls, "state": state, "route": "parent"}
+            plan = {"evict": [["pre_detach_children", op[1]]]}
+            log = mut.dry_log(base, op, plan)
+            try:
+                first = next(i for i, e in enumerate(log) if e[0] == "post_detach_children" and e[1] == op[1]) + 2
+            except StopIteration:
+                continue
+            for k in range(first, len(log) + 1):
+                if log[k - 1][0].startswith("pre_"):
+                    yield {"kind": "evict-veto", "cls": cls, "state": state, "op": op, "plan": dict(plan, once=[k])}
+
+
+def check_evict_veto(case, acc):
+    rec, universe = mut.make_universe(case["cls"], case["state"], "parent")
+    pre = mut.snapshot(universe, rec.labels)
+    rec.begin_call(case["plan"])
+    exc = mut.execute(universe, case["op"])
+    rec.begin_call(None)
+    post = mut.snapshot(universe, rec.labels)
+    if exc is not None and post != pre:
+        raise Violation("not-untouched", "%s plan=%s on %s was vetoed (%s) after _pre_detach_children had re-filed a child; the rollback must restore every former child: forest is now %s" % (case["op"], case["plan"], pre, type(exc).__name__, post))
+    acc.nontrivial(exc is not None)
+    acc.tag("vetoes_after_a_tree_editing_pre_detach_children_hook")
+
+
 def check_locked(case, acc):
     """A validating class that refuses through the public `parent` attribute (a property override) instead of a hook:
     whatever structural call is made on the locked forest, if it raises, nothing has changed."""
@@ -131,6 +168,8 @@ def check_case(case, acc):
             return check_case(dict(case, repr_boom=False), acc)
         finally:
             mut.REPR_BOOM[0] = False
+    if case.get("kind") == "evict-veto":
+        return check_evict_veto(case, acc)
     if case.get("kind") == "locked":
         return check_locked(case, acc)
     if case.get("kind") == "deep":
@@ -176,6 +215,8 @@ def plan(tier, seed):
         tasks.append({"engine": "deep", "cls": cls})
     for n in (2, 3) if tier == "quick" else (2, 3, 4):
         tasks.append({"engine": "locked", "n": n})
+        for cls in ("HNM", "HLM"):
+            tasks.append({"engine": "evict-veto", "n": n, "cls": cls})
     examples = 100 if tier == "quick" else 500
     for i in range(nshards):
         tasks.append({"engine": "hyp", "examples": examples, "seed": seed * 1000 + i})
@@ -195,6 +236,8 @@ def _no_bad_for_lm(cases, family):
 
 
 def run_task(task, acc):
+    if task["engine"] == "evict-veto":
+        return acc.run_enum(check_case, _evict_veto_cases(task["cls"], task["n"]))
     if task["engine"] == "locked":
         cases = ({"kind": "locked", "state": state, "op": op} for state, route in mut.enum_states(task["n"], 0, 1) if route == "parent" for op in mut.calls_for(task["n"], "NM", invalid=False, maxlen=min(task["n"], 3)))
         return acc.run_enum(check_case, cases)
